@@ -802,11 +802,13 @@ func stripPtrs(s string) string {
 
 func runModel(cfg *RunCfg) {
 	st := NewStats("C11", cfg)
-	st.Rule = "cases = {form round trip over 15 struct types x generated field values (ints at width extremes, strings over all bytes/UTF-8/reserved characters, slices/arrays of length 0..40, nested/tagged/untagged/unexported/pointer fields), url.Values round trip, form decode of typed-key garbage / escape garbage / random bytes / mutated valid encodings into every type (zero or pre-filled), plain round trip over 30 leaf types x {value, pointer}, plain decode of garbage into every destination}; distinct by case line; non-trivial = non-empty encoding or non-empty decoder input"
+	st.Rule = "cases = {form round trip over 15 struct types x generated field values (ints at width extremes, strings over all bytes/UTF-8/reserved characters, slices/arrays of length 0..40, nested/tagged/untagged/unexported/pointer fields), url.Values round trip, form decode of typed-key garbage / escape garbage / random bytes / mutated valid encodings into every type (zero or pre-filled), plain round trip over 30 leaf types x {value, pointer}, plain decode of garbage into every destination, socket.Message MarshalBody/UnmarshalBody with every codec id x body {nil, []byte, *[]byte fresh / dirty-longer / dirty-shorter / equal / spare capacity / nil pointer, typed via plain codec or unknown id} x payload {empty, 1 byte, up to 24 bytes} x newBodyFunc}; every destination inside guard zones; distinct by case line; non-trivial = non-empty encoding or non-empty decoder input"
 	w := NewCaseWriter(cfg)
 	distinct := DistinctSet{}
 	for i := 0; i < cfg.N; i++ {
-		switch c := cfg.Rng.Intn(20); {
+		switch c := cfg.Rng.Intn(23); {
+		case c >= 20:
+			bodyCase(cfg, st, w, i, distinct)
 		case c < 7:
 			formRoundtripCase(cfg, st, w, i, distinct)
 		case c < 13:
